@@ -5,7 +5,7 @@
    rejects forward chains: refuted by a witness (known finding).  Tested only: the multi-name
    relabel as a whole, relabelDisjointFrom, Betti invariance. *)
 From Coq Require Import String ZArith Bool Arith List.
-From SV Require Import Names NamesFacts ListFacts Rep Fresh Complex Atomic RepInv Reach RelabelProofs Homology RelabelAll.
+From SV Require Import Names NamesFacts ListFacts Rep Fresh Complex Atomic RepInv Reach RelabelProofs Homology RelabelAll RelabelPhi.
 Import ListNotations.
 
 Theorem C15_one_rename_carries_structure_partial :
@@ -60,3 +60,20 @@ Theorem C15_betti_unchanged :
   numberOfSimplicesOfOrder r' = numberOfSimplicesOfOrder r.
 Proof. exact renamed_homology. Qed.
 Print Assumptions C15_betti_unchanged.
+
+(* a COMPLETED relabel() renames by the user's renaming and reports it: every listing is renamed pointwise by
+   phi = "the name the renaming gave this simplex (remembered from its one call), itself otherwise", matrices
+   and the number of orders are untouched, the returned mapping lists -- in listing order -- exactly the
+   simplices whose name changed, and for a dict renaming m the remembered name of s is m.get(s, s) *)
+Theorem C15_relabel_renames_by_the_users_renaming :
+  forall r rn r' st mapping, pinv r -> rn <> RNone -> relabel r rn = (r', st, Ok mapping) ->
+  renamed_by (memo_of st) r r' /\
+  mapping = changed st (simplices r false) /\
+  (forall s, In s (simplices r false) -> exists t, assoc s (rl_memo st) = Some t).
+Proof. exact relabel_phi. Qed.
+Print Assumptions C15_relabel_renames_by_the_users_renaming.
+Theorem C15_dict_renaming_is_get_with_default :
+  forall r m r' st mapping, pinv r -> relabel r (RMap m) = (r', st, Ok mapping) ->
+  forall s, In s (simplices r false) -> memo_of st s = um m s.
+Proof. exact relabel_phi_dict. Qed.
+Print Assumptions C15_dict_renaming_is_get_with_default.
